@@ -72,6 +72,19 @@ def run(ctx):
             if A.dtype != np.dtype(dt):
                 ctx.fail('stencil_grid/dtype', 'asked %s got %s' % (np.dtype(dt).name, A.dtype), case)
             D = np.real(A.toarray()).astype(np.int64)
+            # the generator is linear in the stencil: the same stencil in other units (exact powers of two) and with an
+            # imaginary unit gives the scaled matrix -- no entry is small enough to be dropped
+            if rep == 0:
+                for sc in (2.0 ** -40, 2.0 ** 40, 2.0 ** -40 * 1j):
+                    try:
+                        As = stencil_grid(S * sc, grid, dtype=complex if isinstance(sc, complex) else float, format='csr').toarray()
+                    except Exception as e:   # noqa
+                        ctx.fail('stencil_grid/scaled/raises', repr(e), dict(case, scale=str(sc)))
+                        continue
+                    if not np.array_equal(As, D * sc):
+                        ctx.fail('stencil_grid/not-linear-in-the-stencil', 'stencil scaled by %s does not give the scaled matrix' % (sc,),
+                                 dict(case, scale=str(sc)))
+                ctx.count('stencil-scaled')
             cases.append('(%s, %s, %s, %s)' % (cq.zl(sshape), cq.zl(grid), cq.zl(S.ravel()), cq.lst([cq.zl(r) for r in D.tolist()])))
             meta.append((case, D.tolist()))
     ctx.exhaustive = True
@@ -215,6 +228,40 @@ def run(ctx):
                     ctx.fail('linear_elasticity/not-SPD' + tag, 'constrained stiffness matrix not symmetric positive definite', case)
                 if _nn(np.abs(Afd @ Bf).max()) > 1e-9 * sc * np.abs(Bf).max():
                     ctx.fail('linear_elasticity/rigid-body-modes' + tag, 'unconstrained operator: |A B| = %.3g' % np.abs(Afd @ Bf).max(), case)
+                # independent assembly of the unconstrained Q1 plane-strain stiffness matrix for THESE material constants
+                # (2x2 Gauss quadrature on every rectangle, Lame parameters from E and nu)
+                DX, DY = spacing if spacing is not None else (1.0, 1.0)
+                lam_ = E * nu / ((1 + nu) * (1 - 2 * nu))
+                mu_ = E / (2 * (1 + nu))
+                Cm = np.array([[lam_ + 2 * mu_, lam_, 0.0], [lam_, lam_ + 2 * mu_, 0.0], [0.0, 0.0, mu_]])
+                Ke = np.zeros((8, 8))
+                g_ = 1.0 / np.sqrt(3.0)
+                for xi in (-g_, g_):
+                    for eta in (-g_, g_):
+                        dN = 0.25 * np.array([[-(1 - eta), (1 - eta), (1 + eta), -(1 + eta)],
+                                              [-(1 - xi), -(1 + xi), (1 + xi), (1 - xi)]])
+                        dNx, dNy = dN[0] * 2.0 / DX, dN[1] * 2.0 / DY
+                        Bm = np.zeros((3, 8))
+                        Bm[0, 0::2], Bm[1, 1::2], Bm[2, 0::2], Bm[2, 1::2] = dNx, dNy, dNy, dNx
+                        Ke += Bm.T @ Cm @ Bm * (DX * DY / 4.0)
+                Xf, Yf = X, Y                 # q12d(dirichlet_boundary=False): X x Y elements, (X+1) x (Y+1) nodes
+                nn_ = (Xf + 1) * (Yf + 1)
+                Kref = np.zeros((2 * nn_, 2 * nn_))
+                for ey in range(Yf):
+                    for ex in range(Xf):
+                        ll = ey * (Xf + 1) + ex
+                        nd = [ll, ll + 1, ll + Xf + 2, ll + Xf + 1]
+                        dofs = [2 * q + c for q in nd for c in (0, 1)]
+                        Kref[np.ix_(dofs, dofs)] += Ke
+                if Kref.shape != Afd.shape or _nn(np.abs(Afd - Kref).max()) > 1e-9 * np.abs(Kref).max():
+                    ctx.fail('linear_elasticity/not-the-Q1-stiffness-matrix' + tag,
+                             'unconstrained operator differs from the Gauss-quadrature assembly for E=%g, nu=%g: max diff %.3g (scale %.3g)'
+                             % (E, nu, np.abs(Afd - Kref).max() if Kref.shape == Afd.shape else float('nan'), np.abs(Kref).max()), case)
+                # the public entry point forwards every parameter: its matrix is the interior block of that operator for an
+                # (X+1) x (Y+1) element mesh
+                Af2, _ = q12d((X, Y), spacing=spacing, E=E, nu=nu, dirichlet_boundary=True)
+                if _nn(np.abs(Ad - Af2.toarray()).max()) > 0:
+                    ctx.fail('linear_elasticity/parameters-not-forwarded' + tag, 'linear_elasticity(grid, spacing, E, nu) differs from q12d with the same arguments', case)
                 # rows of the constrained operator not coupled to the boundary annihilate B
                 n_int = (X - 1 if X > 1 else 0)
                 res = np.abs(Ad @ B).max(axis=1)
